@@ -461,7 +461,10 @@ pub fn run_c10(chk: &Check, tier: Tier) {
         let sys = c11_system("C10", c, Report::default(), vals, false);
         let out = xs::explore(&sys, &Limits::default());
         engine::record(chk, &sys, &out, None);
-        let states: Vec<ParameterNumberMessageScanner> = out.nodes.iter().map(|n| n.state.sc).collect();
+        if out.nodes.len() > 20_000 {
+            chk.not_exhaustive(&format!("C10 channel {}: {} reachable states, inversion run from the 20000 shallowest only", c, out.nodes.len()));
+        }
+        let states: Vec<ParameterNumberMessageScanner> = out.nodes.iter().take(20_000).map(|n| n.state.sc).collect();
         let fresh = ParameterNumberMessageScanner::new();
         // (a)
         let msgs = message_set(c, &boundary14(), &boundary14(), &boundary7());
